@@ -1,13 +1,13 @@
 (* TxExec/ProofsAdopt.v — the full Adopt (pre-checks + execution + flow bookkeeping) refines the gas/exec core `adopt`;
    block gas and totals for the full flow. *)
 From Coq Require Import ZArith List Bool Lia.
-From Verif Require Import Ledger.Model Ledger.Proofs TxExec.Model TxExec.Proofs TxExec.ProofsBlock.
+From Verif Require Import Ledger.Model Ledger.Proofs TxExec.Model TxExec.Proofs TxExec.ProofsEffects TxExec.ProofsBlock.
 Import ListNotations.
 Open Scope Z_scope.
 
 Section AdoptFull.
   Variables W O : Type.
-  Variable clause_result : nat -> Z -> state W -> cres W O.
+  Variable clause_result : env -> txn -> nat -> Z -> state W -> cres W O.
   Variable write_credit : Z -> Z -> Z -> W -> W.
   Let adoptF := adopt_full W O clause_result write_credit.
 
@@ -83,19 +83,32 @@ Section AdoptFull.
         * rewrite sum_used_app. cbn. lia.
   Qed.
 
+  Fixpoint flow_full_burned (e : env) (fe : flow_env) (fs : flow_state) (txs : list (txn * adopt_in * credit_info)) (st : state W) : Z * Z :=
+    match txs with
+    | [] => (0, 0)
+    | (t, ai, ci) :: rest =>
+      match adopt_full W O clause_result write_credit e fe fs t ai ci st with
+      | FRejected _ _ _ st' => flow_full_burned e fe fs rest st'
+      | FAdopted _ _ st' rc fs' =>
+        let b := tx_burned W O clause_result e t ci st in
+        let r := flow_full_burned e fe fs' rest st' in (fst b + fst r, snd b + snd r)
+      end
+    end.
+
   Lemma adopt_all_full_totals e fe dom :
     let T := e_time e in let S := e_stop e in
-    clauses_neutral W O clause_result T S dom -> NoDup dom -> In (e_benef e) dom ->
+    clause_ops_ok W O clause_result dom -> NoDup dom -> In (e_benef e) dom ->
     forall txs fs st rcs fs' st' rcs',
     adopt_all_full W O clause_result write_credit e fe fs txs st rcs = (fs', st', rcs') ->
     Forall (fun rc => In (r_payer O rc) dom) rcs' ->
     exists new, rcs' = rcs ++ new /\
-      sum_eng T S dom (l_acc (fst st')) = sum_eng T S dom (l_acc (fst st)) + sum_reward O new - sum_paid O new /\
-      sum_bal dom (l_acc (fst st')) = sum_bal dom (l_acc (fst st)).
+      sum_eng T S dom (l_acc (fst st')) =
+        sum_eng T S dom (l_acc (fst st)) + sum_reward O new - sum_paid O new - snd (flow_full_burned e fe fs txs st) /\
+      sum_bal dom (l_acc (fst st')) = sum_bal dom (l_acc (fst st)) - fst (flow_full_burned e fe fs txs st).
   Proof.
     intros T S N ND HB. induction txs as [|[[t ai] ci] rest IH]; intros fs st rcs fs' st' rcs' H HP; cbn in H.
     - inversion H; subst. exists []. rewrite app_nil_r. cbn. repeat split; lia.
-    - destruct (adopt_full _ _ _ _ _ _ _ _ _ _ _) as [c s1|s1 rc fs1] eqn:EA.
+    - cbn [flow_full_burned]. destruct (adopt_full _ _ _ _ _ _ _ _ _ _ _) as [c s1|s1 rc fs1] eqn:EA.
       + apply adopt_full_rejected in EA. subst s1. eapply IH; eauto.
       + destruct (IH _ _ _ _ _ _ H HP) as [new [E1 [E2 E3]]].
         assert (HIn : In (r_payer O rc) dom).
@@ -103,9 +116,15 @@ Section AdoptFull.
         apply adopt_full_adopted in EA. destruct EA as [EA _].
         unfold adopt in EA. destruct (_ <? _); [discriminate|].
         destruct (exec_tx _ _ _ _ _ _ _ _) as [|s2 rc2] eqn:EX; [discriminate|]. inversion EA; subst s2 rc2.
-        pose proof (vtho_delta_tx_lemma W O clause_result write_credit e t ci st s1 rc dom N ND HIn HB EX) as [D1 D2].
+        pose proof (tx_totals_exact_lemma W O clause_result write_credit e t ci st s1 rc dom N ND HIn HB EX) as [D1 D2].
         exists (rc :: new). rewrite <- app_assoc in E1. split; [exact E1|].
         change (rc :: new) with ([rc] ++ new). rewrite sum_reward_app, sum_paid_app. cbn.
         fold T S in D1. split; lia.
+  Qed.
+
+  Lemma flow_full_burned_none (NS : no_self_destruct_to_self W O clause_result) e fe txs : forall fs st, flow_full_burned e fe fs txs st = (0, 0).
+  Proof.
+    induction txs as [|[[t ai] ci] rest IH]; intros fs st; [reflexivity|]. cbn [flow_full_burned].
+    destruct (adopt_full _ _ _ _ _ _ _ _ _ _ _); [apply IH|]. rewrite tx_burned_none by exact NS. rewrite IH. reflexivity.
   Qed.
 End AdoptFull.
